@@ -9,7 +9,12 @@ RULE = ("(a) one call battery (sets, specifiers, requirements, markers, tags, wh
         "that are deep-copied before and compared after; transcripts compared per call; (b) order-insensitive inputs (clauses, extras, tag parts, & operands) "
         "supplied in two orders must give equal objects with the same str/hash/behaviour; non-trivial = the call returned a value")
 ASSUMPTIONS = ["PYTHONHASHSEED, aliasing and in-place mutation are properties of the CPython heap: exercised by these runs, not proved",
-               "platform probes (sys_tags and the libc caches) are exercised by the C15/C16 checks"]
+               "platform probes (sys_tags and the libc caches) are exercised by the C15/C16 checks",
+               "this check has no model leg of its own: the call battery and the permutation laws compare runs of the implementation with each other "
+               "(hash seeds, call orders, supply orders); the same operations are compared with the models by the C05/C06/C08/C14/C17 checks, "
+               "whose permutation / history theorems are restated in Properties/C20.v",
+               "members of a set built from Specifier objects with the same clause but different pre-release settings: supply order matters (finding D39)"]
+TRUSTED_EXTRA = ["C20: the restated theorems are about the domain models; their tie to the code is the correspondence run of the check of that domain"]
 HASHSEEDS = ["0", "1", "4242", "4294967295"]
 
 RAW_FIELDS = ["metadata_version", "name", "version", "summary", "keywords", "requires_dist", "requires_python", "provides_extra", "classifiers", "dynamic", "license_expression", "description_content_type"]
@@ -64,6 +69,12 @@ def battery(rng, tier):
         out.append(Case("battery", "det.sorted", [gen.spell(rng, rng.choice(gen.neighbours(rng, gen.rand_v(rng)))) for _ in range(rng.choice([2, 4, 7]))]))
         d = raw_meta(rng); reads = rng.sample(RAW_FIELDS, rng.randrange(1, 7))
         out.append(Case("battery", "det.meta", [json.dumps(d), json.dumps(reads)]))
+        d2 = raw_meta(rng)
+        if rng.random() < 0.7:                                          # several invalid fields at once: the order in which they are reported
+            d2.update(rng.sample([("name", "a b"), ("version", "x"), ("requires_python", "bad"), ("requires_dist", ["bad req!"]), ("license_expression", "zzz"),
+                                  ("provides_extra", ["a b"]), ("dynamic", ["name"]), ("bogus_key", "1"), ("summary", "a\nb")], rng.choice([2, 3, 5])))
+        keys = list(d2); rng.shuffle(keys)
+        out.append(Case("battery", "det.meta.validate", [json.dumps({k: d2[k] for k in keys})]))
         doc = "\n".join("%s: %s" % (rng.choice(["Name", "Version", "Keywords", "Classifier", "Project-URL", "X-Foo", "name", "Requires-Dist", "Metadata-Version"]),
                                     rng.choice(["a", "1.0", "a,b", "Home, https://x", "caf\xe9", "x; extra == 'y'"])) for _ in range(rng.randrange(0, 7))) + rng.choice(["\n", "\n\nbody\n"])
         out.append(Case("battery", "det.email", [doc, rng.choice("sb")]))
@@ -119,6 +130,17 @@ def streams(rng, tier):
             parts = ["+".join(rng.sample(["py2", "py3", "cp39", "cp312"], rng.choice([1, 2, 3]))), "+".join(rng.sample(["none", "abi3", "cp312"], rng.choice([1, 2]))),
                      "+".join(rng.sample(["any", "linux_x86_64", "win_amd64"], rng.choice([1, 2, 3])))]
             out.append(Case("perm-tags", "law.det.perm", ["tags", str(rng.randrange(10**6))] + parts, kind="law"))
+    for _ in range(300 if q else 6000):
+        # sets built from Specifier objects that carry their own pre-release setting, in two supply orders (and a & b against b & a)
+        cl = [gen_spec.spec_string(rng, op=rng.choice(gen_spec.OPS[:7]))[0].strip() for _ in range(rng.choice([2, 3]))]
+        if has_equal_duplicates(cl): continue
+        its = [rng.choice("TFNN") + c for c in cl]
+        if rng.random() < 0.3: its.append(rng.choice("TFN") + rng.choice(cl))       # the same clause twice, possibly under another setting (D39 when it differs)
+        out.append(Case("perm-set-objects", "law.det.perm", [rng.choice(["set-objects", "and-objects"]), str(rng.randrange(10**6))] + its, kind="law"))
+    for a, b in (("T>=1", "F>=1"), ("T>=1", "N>=1"), ("F==1.0", "N==1.0")):
+        for kind in ("set-objects", "and-objects"):
+            for sd in ("1", "2", "3", "5"):
+                out.append(Case("perm-set-objects", "law.det.perm", [kind, sd, a, b], kind="law"))
     for _ in range(150 if q else 3000):
         out.append(Case("fresh-objects", "law.det.fresh", [gen_misc.requirement(rng), gen_misc.requirement(rng)], kind="law"))
     for ta, tb in (("alpha>=1.0", "beta"), ("a", "a"), ("a[x]", "b"), ("b @ http://x", "c; os_name=='a'")):
@@ -152,6 +174,15 @@ def match_d33(case, impl, model):
     if not (isinstance(impl, str) and "observable value depends on supply order" in impl): return False
     a, b = case.args[2], case.args[3]
     return a != b and (a, b) in {("==1.0", "==1.0.0"), (">=1.0", ">=1"), ("!=2.0.0", "!=2"), ("<=1.0a1", "<=1.0.alpha1"), ("==1.0", "== v1.0")}
+
+def match_d39(case, impl, model):
+    """D39 (same root as D33): two member Specifier objects with the same clause but different pre-release settings are equal, so the set keeps
+    whichever was supplied first: .prereleases / contains / filter of the set then depend on supply order.  Input class: two items with the same
+    clause text and different setting letters.  Expected wrong answer: 'observable value depends on supply order'."""
+    if case.cmd != "law.det.perm" or case.args[0] not in ("set-objects", "and-objects"): return False
+    if not (isinstance(impl, str) and "observable value depends on supply order" in impl): return False
+    its = case.args[2:]
+    return any(x[1:] == y[1:] and x[0] != y[0] for x in its for y in its)
 
 def extra_checks(rng, tier, core, replay=None):
     if replay is not None:
